@@ -58,7 +58,7 @@ func (s *RedundantScope) handleVarassign(mkline *MkLine, ind *Indentation) {
 	info := s.get(varname)
 
 	defer func() {
-		info.vari.Write(mkline, ind.Depth("") > 0, ind.Varnames()...)
+		info.vari.Write(mkline, ind.IsConditional(), ind.Varnames()...)
 		info.lastAction = 2
 		s.access(varname)
 	}()
@@ -74,7 +74,7 @@ func (s *RedundantScope) handleVarassign(mkline *MkLine, ind *Indentation) {
 	//  this variable assignment and the/any? previous one.
 	//  See Test_RedundantScope__overwrite_inside_conditional.
 	//  Anyway, too few warnings are better than wrong warnings.
-	if info.vari.IsConditional() || ind.Depth("") > 0 {
+	if info.vari.IsConditional() || ind.IsConditional() {
 		return
 	}
 
